@@ -570,7 +570,7 @@ func (r *run) step(em *emulator.Emulator, codeBytes map[uint64]bool) {
 		if probe, e := pm.Step(word); e == nil {
 			name = probe.Name
 			for _, a := range append(append([]rvref.Access{}, probe.Loads...), probe.Stores...) {
-				if a.Addr+uint64(a.W) < a.Addr {
+				if a.Addr+uint64(a.W) <= a.Addr { // wraps, or ends exactly at 2^64
 					wraps = true
 				}
 			}
@@ -602,7 +602,11 @@ func (r *run) step(em *emulator.Emulator, codeBytes map[uint64]bool) {
 		return
 	}
 	if err != nil {
-		r.fail("C03", "fails-iff-not-at-instruction", "step/failed-at-instruction/"+name, "pc %#x is the start of %s but Step failed: %v", pc, name, err)
+		sig := "step/failed-at-instruction/" + name
+		if wraps {
+			sig = "step-fails/access-reaches-end-of-address-space"
+		}
+		r.fail("C03", "fails-iff-not-at-instruction", sig, "pc %#x is the start of %s but Step failed: %v", pc, name, err)
 		r.stop = true
 		return
 	}
